@@ -36,6 +36,7 @@ One can reverse a captured panic stack trace as follows:
 	// to ensure that sharedCache.ListedPackages is filled.
 	_, err := toolexecCmd("list", append(flags, pkg))
 	defer os.RemoveAll(os.Getenv("GARBLE_SHARED"))
+	defer verifEvent("shared-remove", "dir", os.Getenv("GARBLE_SHARED"), "command", "reverse")
 	if err != nil {
 		return err
 	}
